@@ -501,3 +501,20 @@ func CaptureEnd() []string {
 	}
 	return lines
 }
+
+// CountCalls starts counting the calls of functions whose name contains substr (gse only);
+// Calls is the count so far (natively -1: not observable).
+func CountCalls(substr string) {}
+func Calls() int                { return -1 }
+
+// Within runs f and reports whether it returned within d (natively; under gse f simply runs).
+func Within(d time.Duration, f func()) bool {
+	done := make(chan struct{})
+	go func() { defer close(done); f() }()
+	select {
+	case <-done:
+		return true
+	case <-time.After(d):
+		return false
+	}
+}
